@@ -703,7 +703,9 @@ def suite(ctx: Ctx, on: list[str], n_random_progs: int, n_sim: int, n_random_his
         if alt_limits and i % 3:
             lim = {r: (1 if i % 3 == 1 else 50) for r in prog["res"]}
             # a job may ask for up to 2 units: keep the premise "no job demands more than the limit"
-            need = {r: max([t["units"].get(r, 0) for t in prog["tasks"].values()] + [1]) for r in prog["res"]}
+            need = {r: max([t["units"].get(r, 0) for t in prog["tasks"].values()]
+                           + [c.get("u", {}).get(r, 0) for t in prog["tasks"].values() for v in t["vers"]
+                              for c in v["children"]] + [1]) for r in prog["res"]}
             lim = {r: max(lim[r], need[r]) for r in lim}
         h = random_history(ctx, prog, f"{tag}r{i}", ctx.rng.choice([0.2, 0.5, 0.8]), limits=lim, policy=policy)
         stats["random"] += 1
